@@ -8,6 +8,10 @@ From Soy Require Import Model.Bytes Model.Utf8 Model.Outcome Model.Token Generat
 From Coq Require Import ZifyBool ZifyNat ZifyN Lia.
 Open Scope Z_scope.
 
+(* the head of the item list is an EOF or error item: the state of a finished scan *)
+Definition done_ok (l : lx) : Prop :=
+  exists it rest, l_out l = it :: rest /\ (t_typ it = itemEOF \/ t_typ it = itemError).
+
 Definition okp {A} (x : outcome A) (P : A -> Prop) : Prop :=
   match x with Ok v => P v | _ => False end.
 
@@ -63,9 +67,9 @@ Lemma isEndOfLine_nonneg r : gen_isEndOfLine r = true -> 0 <= r < 128.
 Proof. unfold gen_isEndOfLine. lia. Qed.
 Lemma isSpaceEOL_nonneg r : gen_isSpaceEOL r = true -> 0 <= r < 128.
 Proof. unfold gen_isSpaceEOL, gen_isSpace, gen_isEndOfLine. lia. Qed.
-Lemma isLetterOrUnderscore_nonneg r : gen_isLetterOrUnderscore r = true -> 0 <= r < 128.
+Lemma isLetterOrUnderscore_nonneg r : gen_isLetterOrUnderscore r = true -> 65 <= r < 128.
 Proof. unfold gen_isLetterOrUnderscore. lia. Qed.
-Lemma isDigit_nonneg r : gen_isDigit r = true -> 0 <= r < 128.
+Lemma isDigit_nonneg r : gen_isDigit r = true -> 48 <= r < 58.
 Proof. unfold gen_isDigit. lia. Qed.
 Lemma in_set_nonneg v r : in_set v r = true -> 0 <= r < 128.
 Proof. unfold in_set. lia. Qed.
@@ -73,6 +77,8 @@ Proof. unfold in_set. lia. Qed.
 Section Prim.
 Variable inp : bstr.
 Notation ilen := (Z.of_nat (length inp)).
+Variable base : Z.
+Hypothesis base_nonneg : 0 <= base.
 
 (* ---------- next / peek ---------- *)
 
@@ -125,9 +131,9 @@ Qed.
 
 Definition emit_post (t : N) (l l' : lx) : Prop :=
   l_pos l' = l_pos l /\ l_start l' = l_pos l /\ l_width l' = l_width l /\ l_ticks l' = l_ticks l /\ l_dd l' = l_dd l /\
-  exists it, l_out l' = it :: l_out l /\ t_typ it = t /\ l_last l' = it.
+  exists it, l_out l' = it :: l_out l /\ t_typ it = t /\ l_last l' = it /\ t_pos it = Z.to_N (base + l_pos l).
 
-Lemma emit_spec t l : 0 <= l_start l <= l_pos l -> l_pos l <= ilen -> okp (emit inp ilen t l) (emit_post t l).
+Lemma emit_spec t l : 0 <= l_start l <= l_pos l -> l_pos l <= ilen -> okp (emit inp ilen base t l) (emit_post t l).
 Proof.
   intros H1 H2. unfold emit.
   destruct (ilen <? l_pos l) eqn:E; [lia|].
@@ -135,18 +141,16 @@ Proof.
   repeat split. eexists; repeat split.
 Qed.
 
-(* the head of the item list is an EOF or error item: the state of a finished scan *)
-Definition done_ok (l : lx) : Prop :=
-  exists it rest, l_out l = it :: rest /\ (t_typ it = itemEOF \/ t_typ it = itemError).
 
 Definition errorf_post (l : lx) (p : lstate * lx) : Prop :=
   let '(st, l') := p in
-  st = LDone /\ l_pos l' = l_pos l /\ l_start l' = l_start l /\ l_width l' = l_width l /\ l_ticks l' = l_ticks l /\ done_ok l'.
+  st = LDone /\ l_pos l' = l_pos l /\ l_start l' = l_start l /\ l_width l' = l_width l /\ l_ticks l' = l_ticks l /\ done_ok l' /\
+  exists it, l_out l' = it :: l_out l /\ t_pos it = Z.to_N (base + l_pos l).
 
-Lemma errorf_spec c l : 0 <= l_pos l -> okp (errorf c l) (errorf_post l).
+Lemma errorf_spec c l : 0 <= l_pos l -> okp (errorf base c l) (errorf_post l).
 Proof.
-  intros H. unfold errorf. destruct (l_pos l <? 0) eqn:E; [lia|]. cbn.
-  repeat split. eexists; eexists; split; [reflexivity|right; reflexivity].
+  intros H. unfold errorf. destruct (base + l_pos l <? 0) eqn:E; [lia|]. cbn.
+  repeat split; [eexists; eexists; split; [reflexivity|right; reflexivity]|eexists; split; reflexivity].
 Qed.
 
 (* ---------- accept, acceptRun ---------- *)
@@ -187,12 +191,13 @@ Definition accept_run_post (l : lx) (p : bool * lx) : Prop :=
   l_start l' = l_start l /\ l_dd l' = l_dd l /\ l_last l' = l_last l /\ l_out l' = l_out l /\
   l_pos l <= l_pos l' <= ilen /\ 0 <= l_width l' /\
   l_ticks l <= l_ticks l' /\ l_ticks l' - l_ticks l <= l_pos l' - l_pos l + 1 /\
-  (b = true <-> l_pos l < l_pos l').
+  (if b then l_pos l < l_pos l' else l_pos l' = l_pos l).
 
 Lemma accept_run_spec v l : 0 <= l_pos l <= ilen -> okp (accept_run inp ilen v l) (accept_run_post l).
 Proof.
   intros Hp. unfold accept_run. eapply okp_bind; [apply accept_run_loop_spec; [lia|unfold loop_fuel; lia]|].
-  intros l1 H. unfold scan_post in H. cbn. lsimpl. fin.
+  intros l1 H. unfold scan_post in H. cbn. lsimpl.
+  destruct (l_pos l <? l_pos l1 - l_width l1) eqn:E; fin.
 Qed.
 
 (* ---------- maybeEmitText ---------- *)
@@ -202,7 +207,7 @@ Definition met_post (bk : Z) (l l' : lx) : Prop :=
   l_start l <= l_start l' /\ (l_start l' = l_start l \/ l_start l' = l_pos l - bk).
 
 Lemma maybe_emit_text_spec l bk : 0 <= bk -> 0 <= l_start l -> l_pos l <= ilen ->
-  okp (maybe_emit_text inp ilen l bk) (met_post bk l).
+  okp (maybe_emit_text inp ilen base l bk) (met_post bk l).
 Proof.
   intros Hb Hs Hp. unfold maybe_emit_text.
   destruct (l_start l <? l_pos l - bk) eqn:E; [|cbn; unfold met_post; lia].
@@ -236,6 +241,12 @@ Lemma skip_space_spec l : 0 <= l_pos l <= ilen -> okp (skip_space inp ilen l) (s
 Proof.
   intros Hp. unfold skip_space. eapply okp_bind; [apply skip_space_loop_spec; [lia|unfold loop_fuel; lia]|].
   intros l1 H. unfold scan_post in H. cbn. unfold skip_post. lsimpl. fin.
+Qed.
+
+Lemma emit_to_spec t st l : 0 <= l_start l <= l_pos l -> l_pos l <= ilen ->
+  okp (emit_to inp ilen base t st l) (fun p => fst p = st /\ emit_post t l (snd p)).
+Proof.
+  intros H1 H2. unfold emit_to. eapply okp_bind; [apply emit_spec; assumption|]. intros l1 H. cbn. split; [reflexivity|exact H].
 Qed.
 
 Lemma loop_fuel_ok l : 0 <= l_pos l <= ilen -> (Z.to_nat (ilen - l_pos l) < loop_fuel ilen l)%nat.
